@@ -9,14 +9,16 @@ EXTENDS Naturals, Sequences, FiniteSets, TLC, Json
 
 \* one section (a mapping object type -> operation -> permission)
 SectionShapes == {"absent", "ok", "empty", "list", "string", "number", "null",
-                  "badtype", "ops_list", "ops_string", "badop", "badperm", "perm_number"}
+                  "badtype", "ops_list", "ops_string", "ops_number", "ops_null", "badop", "badperm", "perm_number",
+                  "perm_list", "perm_object", "perm_null", "perm_bool"}
 SectionValid(s) == s \in {"absent", "ok", "empty", "null"}
 
 \* one policy
 PolicyShapes == {"sections", "legacy", "empty", "list", "string", "number", "unknown_section", "mixed"}
 GroupShapes == {"absent", "ok", "empty", "list", "string", "group_section_bad", "null"}
 
-LegacyShapes == {"ok", "badtype", "ops_list", "ops_string", "badop", "badperm", "perm_number"}
+LegacyShapes == {"ok", "badtype", "ops_list", "ops_string", "ops_number", "ops_null", "badop", "badperm", "perm_number",
+                 "perm_list", "perm_object", "perm_null", "perm_bool"}
 Policies ==
     {p \in [shape : {"sections"}, preset : SectionShapes, groups : GroupShapes] : p.preset # "absent" \/ p.groups # "absent"}
     \cup [shape : {"legacy"}, preset : LegacyShapes, groups : {"absent"}]
